@@ -169,7 +169,37 @@ def gen_projection():
             yield stm + show, ["a(1,2). b(2,3). c(3). e(2,3).", "a(1,2). a(2,2). b(2,1). b(2,2). c(2). e(1,2). e(2,2).", "a(1,1). b(1,4). c(5). e(3,4)."]
 
 
+def gen_none():
+    """constructs the normalisation (all traits off) rewrites: comparison chains, guards on either side, old-style
+    aggregates, #count, arithmetic in atoms, intervals, pools, negation of comparisons / aggregates"""
+    show = " #show a/0. #show a/1. #show a/2. #show p/1."
+    for sign in SIGNS:
+        for o1 in OPS:
+            for o2 in ("<", ">=", "=", "!="):
+                if sign != "not ":  # a negated comparison chain is the open finding C05-negated-chain-split (witness replayed)
+                    yield f"p(1..5). a(X) :- p(X), {sign}2 {o1} X {o2} 4." + show, [""]
+                yield f"{{p(1..3)}}. a :- {sign}1 {o1} #sum{{X : p(X)}} {o2} 4." + show, [""]
+            yield f"{{p(1..3)}}. a :- {sign}#count{{X : p(X)}} {o1} 2." + show, [""]
+            yield f"{{p(1..3)}}. a :- {sign}2 {o1} #count{{X : p(X); X+1 : p(X)}}." + show, [""]
+            yield f"{{p(1..3)}}. a :- {sign}2 {o1} {{p(X) : X > 1; not p(1)}}." + show, [""]
+            yield f"{{p(1..3)}}. a :- {sign}{{p(X)}} {o1} 2." + show, [""]
+            yield f"{{p(1..3)}}. a(N) :- N = #max{{X : p(X)}}, {sign}N {o1} 2." + show, [""]
+            yield f"p(1..4). a(X,Y) :- p(X), p(Y), {sign}X + 1 {o1} Y * 2." + show, [""]
+            yield f"p(1..4). a(X+1) :- p(X), {sign}X {o1} 2." + show, [""]
+            yield f"p(1..4). a(Y) :- p(X), Y = X * 2, {sign}Y {o1} 4." + show, [""]
+            yield f"p(1..4). a(X) :- p(X), {sign}X {o1} (1;3)." + show, [""]
+            yield f"p(1..4). a(X) :- p(X), {sign}X {o1} 2..3." + show, [""]
+            yield f"p(1..4). a(X) :- p(X), {sign}p(X+1), X {o1} 3." + show, [""]
+            yield f"p(1..4). {{a(X) : p(X), {sign}X {o1} 2}}. :~ a(X), {sign}X {o1} 3. [X@1]" + show, [""]
+            yield f"p(1..4). a(X) :- p(X), {sign}|X - 3| {o1} 1." + show, [""]
+            yield f"p(1..4). a(X) :- p(X), p(Y) : p(Z), {sign}Y {o1} Z; X > 1." + show, [""]
+            yield f"{{p(1..3)}}. a :- {sign}#sum{{X,Y : p(X), p(Y), X {o1} Y}} > 3." + show, [""]
+            yield f"{{p(1..3)}}. a :- {sign}#min{{X : p(X)}} {o1} #sup." + show, [""]
+            yield f"{{p(1..3)}}. a :- {sign}#inf {o1} #max{{X : p(X)}}." + show, [""]
+
+
 GENERATORS = {
+    "none": gen_none,
     "inline": gen_inline,
     "minmax_chains": gen_minmax,
     "sum_chains": gen_sum_chains,
